@@ -493,6 +493,13 @@ impl ContinuityStore {
 
         let mut tail_bytes = INITIAL_TAIL_BYTES;
         while tail_bytes <= MAX_TAIL_BYTES {
+            // Read the head before the tail: a frame appended while the tail is scanned must not
+            // move the cut past a message the scan did not see.
+            let head_before_scan = self
+                .stream_cache
+                .try_read_last_seq(continuity_id)
+                .ok()
+                .flatten();
             match self.stream_cache.scan_tail_messages_runs_v1(
                 continuity_id,
                 MAX_TAIL_EVENTS,
@@ -506,11 +513,7 @@ impl ContinuityStore {
                     if !tail.events.is_empty() {
                         // Prefer the full continuity sidecar's head seq so `from_seq` matches the
                         // truth stream even when the mr sidecar omits non-message events.
-                        let head_seq = self
-                            .stream_cache
-                            .try_read_last_seq(continuity_id)
-                            .ok()
-                            .flatten()
+                        let head_seq = head_before_scan
                             .or_else(|| tail.events.last().map(|event| event.seq))
                             .unwrap_or_default();
 
